@@ -61,12 +61,8 @@ def allorfs (j : Json) : R Json := do
   let parts ← listOf partOfJson3 (← fld j "parts")
   let impl ← listOf locOfJson (fldD j "impl" (jArr []))
   let genes := parts.flatMap (·.2.2)
-  let areas : Option (List (Int × Int)) :=
-    if cross then crossOriginIntergenic parts L minLen pad
-    else match parts with
-      | [p] => some (findIntergenic p.1 p.2.1 p.2.2 minLen pad)
-      | _ => none
-  let locs := areas.bind (scanAreas rec_ minLen)
+  let areas : Option (List (Int × Int)) := orfAreas L cross parts minLen pad
+  let locs := findAllOrfs rec_ cross parts minLen pad
   let inGaps := match areas with
     | none => true
     | some as => impl.all fun l => as.any fun a => locInArea L a l
@@ -81,12 +77,11 @@ def allorfs (j : Json) : R Json := do
 def trimToJson : Trim → Json
   | .valueError => Json.str "value-error"
   | .none => Json.null
-  | .found a b => jArr [toJson a, toJson b]
+  | .found l => locToJson l
 
 def trim (j : Json) : R Json := do
   let seq := (← strF j "seq").toList
-  let r := trimmedOrf seq (← intF j "lo") (← intF j "hi") (← boolF j "fwd") (← optInt j "incl")
-    (← intF j "minlen") (← optInt j "maxlen")
+  let r := trimmedOrf seq (← locOfJson (← fld j "loc")) (← optInt j "incl") (← intF j "minlen") (← optInt j "maxlen")
   return jObj [("model", trimToJson r)]
 
 def handle (j : Json) : R Json := do
